@@ -374,6 +374,10 @@ func (c19) Gen(rng *rand.Rand, tier string, k int) *Case {
 	if c.Entity == "file" {
 		c.Mode = []string{"present", "present", "missing", "directory"}[rng.Intn(4)]
 	}
+	if (c.Entity == "json" || c.Entity == "tiingo-getsince") && rng.Intn(40) == 0 {
+		c.Pad = []int{70_000, 1_100_000, 2_300_000}[rng.Intn(3)]
+		c.Faults = nil
+	}
 	c.Policy = genPolicy(rng)
 	return c
 }
@@ -383,6 +387,11 @@ func (c19) Shrinks(c *Case) []*Case {
 	if len(c.Frag) > 0 {
 		d := *c
 		d.Frag = nil
+		out = append(out, &d)
+	}
+	if c.Pad > 0 {
+		d := *c
+		d.Pad = c.Pad / 2
 		out = append(out, &d)
 	}
 	for i := range c.Faults {
@@ -423,6 +432,24 @@ func (c19) Run(c *Case, st *Stats) []Violation {
 	regime := "well-formed-or-not"
 	add := func(kind, detail string) {
 		vs = append(vs, Violation{Prop: "C19", Entity: c.Entity, Kind: kind, Regime: regime, Detail: fmt.Sprintf("%s doc=%q frag=%v faults=%v status=%v mode=%s: %s", c.Entity, trunc(string(c.Doc), 160), c.Frag, c.Faults, c.Param, c.Mode, detail)})
+	}
+	// large bodies: JSON whitespace between elements changes nothing for a decoder but moves the
+	// following records past any size-dependent behaviour (buffers, caps)
+	if c.Pad > 0 && (c.Entity == "json" || c.Entity == "tiingo-getsince") {
+		d := *c
+		pos := bytes.IndexByte(c.Doc, ',')
+		if pos < 0 {
+			pos = bytes.IndexByte(c.Doc, '[')
+		}
+		if pos >= 0 {
+			d.Doc = append(append(append([]byte{}, c.Doc[:pos+1]...), bytes.Repeat([]byte(" \n"), c.Pad/2)...), c.Doc[pos+1:]...)
+			d.Pad = 0
+			if len(d.Frag) > 0 {
+				d.Frag = []int{4096, 1, 8192}
+			}
+			st.Faults["body-padded-beyond-1MiB"]++
+			return c19{}.Run(&d, st)
+		}
 	}
 	errAt := -1
 	transportErr := false
